@@ -10,6 +10,7 @@ import CanopenModel.Pdo.Collection
 import CanopenModel.Spec.StrictPdoDevice
 import CanopenProofs.Lemmas.PdoConfig
 import CanopenProofs.Lemmas.PdoStrict
+import CanopenProofs.Lemmas.Network
 
 namespace Canopen.C09
 open Canopen.Pdo Canopen.Spec.StrictPdo Canopen.Gen.PdoConfig
@@ -370,5 +371,99 @@ theorem readAll_cons_ok {σ} (D : Dev σ) (src : Src) (od : Od) (old : Cfg) (res
   cases r with
   | error e => rw [bind_err h2]; rfl
   | ok os => rw [bind_ok h2]; rfl
+
+/-! ### the subscriber table (`Network.subscribers`, model and lemmas of C10) under subscribe calls -/
+
+section subs
+open Canopen.Net (Subs Cb subscribe subscribeMany)
+open Canopen.Spec.Multimap (MM)
+open Canopen.C10 (abs NodupAll abs_subscribe mem_subscribe)
+
+theorem mm_subscribe_count (m : MM Cb) (id : Nat) (cb : Cb) (j : Nat) (x : Cb) :
+    (Spec.Multimap.subscribe m id cb j).count x
+      = if j = id ∧ x = cb ∧ cb ∉ m id then (m j).count x + 1 else (m j).count x := by
+  simp only [Spec.Multimap.subscribe]
+  by_cases hj : j = id
+  · subst hj
+    by_cases hc : cb ∈ m j
+    · simp [hc]
+    · by_cases hx : x = cb
+      · subst hx; simp [hc]
+      · have : ¬ (cb = x) := fun h => hx h.symm
+        simp [hc, hx, List.count_append, this]
+  · simp [hj]
+
+/-- **Independent of what was in the table**: after any sequence of `Network.subscribe` calls the
+    number of times a callback `x` is in the list of id `j` is what it was if it was there already,
+    and otherwise 1 or 0 according to whether one of the calls was `(j, x)` — whatever else (other
+    callbacks, an empty list, no entry at all) the table held for `j` or any other id. -/
+theorem subscribeMany_count (s : Subs) (calls : List (Nat × Cb)) (j : Nat) (x : Cb) :
+    (abs (subscribeMany s calls) j).count x
+      = if x ∈ abs s j then (abs s j).count x else if (j, x) ∈ calls then 1 else 0 := by
+  induction calls generalizing s with
+  | nil =>
+    simp only [subscribeMany, List.not_mem_nil, if_false]
+    split
+    · rfl
+    · exact List.count_eq_zero.mpr ‹_›
+  | cons p r ih =>
+    obtain ⟨id, cb⟩ := p
+    simp only [subscribeMany]
+    rw [ih, abs_subscribe]
+    have hmem := mem_subscribe (abs s) id cb j x
+    have hcnt := mm_subscribe_count (abs s) id cb j x
+    by_cases hx : x ∈ abs s j
+    · have h1 : x ∈ Spec.Multimap.subscribe (abs s) id cb j := hmem.mpr (Or.inl hx)
+      rw [if_pos h1, if_pos hx, hcnt]
+      have : ¬ (j = id ∧ x = cb ∧ cb ∉ abs s id) := by
+        rintro ⟨rfl, rfl, h⟩; exact h hx
+      rw [if_neg this]
+    · rw [if_neg hx]
+      by_cases hp : j = id ∧ x = cb
+      · obtain ⟨rfl, rfl⟩ := hp
+        have h1 : x ∈ Spec.Multimap.subscribe (abs s) j x j := hmem.mpr (Or.inr ⟨rfl, rfl⟩)
+        rw [if_pos h1, hcnt, if_pos ⟨rfl, rfl, hx⟩, List.count_eq_zero.mpr hx]
+        simp
+      · have h1 : ¬ x ∈ Spec.Multimap.subscribe (abs s) id cb j := by
+          intro h; rcases hmem.mp h with h | h
+          · exact hx h
+          · exact hp h
+        rw [if_neg h1]
+        have : (j, x) ∈ (id, cb) :: r ↔ (j, x) ∈ r := by
+          simp only [List.mem_cons, Prod.mk.injEq]
+          constructor
+          · rintro (h | h)
+            · exact absurd h hp
+            · exact h
+          · exact Or.inr
+        simp only [this]
+
+/-- what was subscribed before stays, in the same order, at the front of every list -/
+theorem subscribeMany_prefix (s : Subs) (calls : List (Nat × Cb)) (j : Nat) :
+    abs s j <+: abs (subscribeMany s calls) j := by
+  induction calls generalizing s with
+  | nil => exact List.prefix_refl _
+  | cons p r ih =>
+    obtain ⟨id, cb⟩ := p
+    simp only [subscribeMany]
+    refine List.IsPrefix.trans ?_ (ih _)
+    rw [abs_subscribe]
+    simp only [Spec.Multimap.subscribe]
+    by_cases hj : j = id
+    · subst hj
+      rw [if_pos rfl]
+      split
+      · exact List.prefix_refl _
+      · exact List.prefix_append _ _
+    · rw [if_neg hj]
+      exact List.prefix_refl _
+
+/-- different maps of a node object have different `on_message` callbacks -/
+theorem mapCb_inj (o : Nat) (t t' : Bool) (n n' : Nat) (h : mapCb o t n = mapCb o t' n') :
+    t = t' ∧ n = n' := by
+  simp only [mapCb, Cb.node.injEq, Net.Handler.other.injEq, true_and] at h
+  cases t <;> cases t' <;> simp at h ⊢ <;> omega
+
+end subs
 
 end Canopen.C09
